@@ -410,7 +410,8 @@ op_rule!(op_2_5, op_3, tag("&"));
 op_rule!(op_2_4, op_2_5, tag("^"));
 op_rule!(op_2_3, op_2_4, tag("|"));
 op_rule!(op_2, op_2_3, alt((tag("&&"), tag_no_case("and"))));
-op_rule!(op_1, op_2, alt((tag("||"), tag_no_case("or"))));
+op_rule!(op_1_5, op_2, alt((tag("^^"), tag_no_case("xor"))));
+op_rule!(op_1, op_1_5, alt((tag("||"), tag_no_case("or"))));
 
 rule!(op_if(i) -> Value, {
     map(
